@@ -9,7 +9,7 @@ TRUSTED = [
     'correspondence: in-package Go drivers harness/multiplex/c14_test.go (real datagramBufferedPipe, white box) and c14_sess_test.go (real unordered Session pair over harness-owned in-memory conns, all 4 encryption methods) vs extracted OCaml model (ExtrOcamlBasic only), ocaml/c14_driver.ml',
     'blocking (sync.Cond), read deadlines and the 2^31-1 buffer limit are not exercised: a read that would block is reported as "empty" after inspecting the pipe under its lock; WrWouldBlock exists in the model only',
     'the cipher/obfuscation layer is used as is (C04/C11 cover it); which connection a frame travels on is read off the harness network and fed to the model as input',
-    'the UDP relays around the Stream interface (client.RouteUDP 8192-byte buffer, server ReadFrom) are NOT covered here: design finding F15 was not replayed on sockets',
+    'relay level: client.RouteUDP is driven through a real loopback UDP socket against a real unordered Session pair (harness/client/c14_udp_test.go); its 8192-byte read buffer is a literal, modelled as relay_buf and measured by the driver; the server-side udp ProxyBook relay (Stream.ReadFrom on a UDP socket) is not driven',
 ]
 ASSUMPTIONS = ['healthy session / open stream for the exactly-once half (the at-most-once half and the boundary theorems are unconditional)',
                'total buffered bytes below recvBufferSizeLimit = 2^31-1 for "every write is accepted" (otherwise the write blocks)',
@@ -470,12 +470,79 @@ def correspondence(ctx, verdict, pr):
         mismatches=len(mism), oracle_failures=len(orc),
         input_distribution=dict(case_kinds=vlib.summarize_dist(kinds), observations=dict(sorted(ev['stats'].items()))),
         corpus_cases=ncorpus, exhaustive=False)
-    ctx.notes.append('F15 (relay-level truncation in client.RouteUDP, 8192-byte buffer) is outside the Stream interface checked here and was not replayed on loopback sockets by this check')
+    relay_part(ctx, verdict, res)
     return res
+
+
+RELAY_SIZES = [1, 100, 8191, 8192, 8193, 9000, 16132, 16133]
+
+
+def relay_part(ctx, verdict, res):
+    """Design finding F15: client.RouteUDP on a loopback UDP socket.  Property at the relay: a datagram
+    that fits one frame arrives whole in both directions; a larger one is refused, not forwarded cut."""
+    inp = '%s/udp.in' % ctx.work
+    out = '%s/udp.go.out' % ctx.work
+    open(inp, 'w').write('u0 UDP %s\n' % ' '.join(map(str, RELAY_SIZES)))
+    rc, log, dt = vlib.go_test(ctx, 'client', 'TestVerifC14UDP', files=['c14_udp_test.go'],
+                               env=dict(VERIF_IN=inp, VERIF_OUT=out), timeout=300)
+    impl = vlib.read_lines_by_id(out).get('u0')
+    if rc != 0 or not impl:
+        res['broken'].append(('Go driver TestVerifC14UDP (client.RouteUDP on loopback UDP) failed to build or run', log[-3000:]))
+        return
+    toks = impl.split()
+    maxu = int(toks[0].split(':')[1])
+    ups = [t.split(':') for t in toks if t.startswith('up:')]
+    downs = [t.split(':') for t in toks if t.startswith('down:')]
+    # model: what goes into the stream for a datagram of each size
+    mlines = ['q%d Q %d %s' % (i, LIMIT, u[1]) for i, u in enumerate(ups)]
+    mrc, merr, model = run_model(ctx, mlines, 'udp')
+    if mrc != 0:
+        res['broken'].append(('extracted model c14 failed on the relay cases', merr[-2000:]))
+    diffs = []
+    for i, u in enumerate(ups):
+        got = '%s:%s:%s' % (u[2], u[3], u[4]) if u[2].isdigit() else 'none:0:0'
+        if model.get('q%d' % i) is not None and model['q%d' % i] != got:
+            diffs.append('datagram of %s bytes: implementation %s, model %s' % (u[1], got, model['q%d' % i]))
+    if diffs:
+        res['broken'].append(('model route_udp_up (relay_buf = 8192) vs client.RouteUDP', '\n'.join(diffs)))
+    verdict.cov['relay_observations'] = impl
+    verdict.cov['traces_validated_against_impl'] = verdict.cov.get('traces_validated_against_impl', 0) + len(model)
+    # oracle
+    replay = dict(kind='UDP', sizes=RELAY_SIZES, implementation=impl, evs=None,
+                  how='VERIF_IN=<file with "u0 UDP <sizes>"> go test -overlay ... -run TestVerifC14UDP ./internal/client/ ; or python3 tools/check.py C14 --replay <this file>')
+    for u in ups:
+        size = int(u[1])
+        if size <= maxu and u[3] != '1':
+            verdict.oracle_failure('relay:uplink-truncated',
+                                   'client.RouteUDP uplink: a %d-byte datagram (fits one frame, max %d) reached the peer stream as %s bytes%s' % (
+                                       size, maxu, u[2], ' (a prefix of it)' if u[4] == '1' else ''), dict(replay, size=size))
+            break
+    for u in ups:
+        size = int(u[1])
+        if size > maxu and u[2].isdigit():
+            verdict.oracle_failure('relay:oversize-forwarded-truncated',
+                                   'client.RouteUDP uplink: a %d-byte datagram (larger than one frame, max %d) was not refused but forwarded as %s bytes' % (size, maxu, u[2]),
+                                   dict(replay, size=size))
+            break
+    for d in downs:
+        size = int(d[1])
+        if size <= maxu and d[3] != '1':
+            verdict.oracle_failure('relay:downlink-dropped',
+                                   'client.RouteUDP downlink: a %d-byte datagram written by the peer (fits one frame, max %d) reached the application socket as: %s' % (size, maxu, d[2]),
+                                   dict(replay, size=size))
+            break
 
 
 def replay(ctx, verdict):
     r = ctx.replay
+    if r.get('kind') == 'UDP':
+        v2 = vlib.Verdict(ctx)
+        res = dict(broken=[])
+        relay_part(ctx, v2, res)
+        print('implementation:', v2.cov.get('relay_observations'))
+        print('broken:', res['broken'])
+        print('oracle (known findings):', sorted(v2.known_seen.values()), 'new:', [w for _, _, w in v2.violations])
+        return 1 if (v2.known_seen or v2.violations) else 0
     if not r.get('evs'):
         print(json.dumps(r, indent=1)[:4000]); return 0
     case = ('replay', r['kind'], r['evs'], r['meta'])
@@ -491,5 +558,5 @@ def replay(ctx, verdict):
 MANIFEST = dict(
     technique='Coq proof by representation invariant over all operation sequences of a hand-written model (pipe: writes/reads/close; session receive side: frame arrivals for any stream ids, reads, closes); model tied to the code by differential execution (extracted OCaml vs in-package Go drivers on the real datagramBufferedPipe and on a real unordered Session pair over harness-owned connections)',
     level_text='Theorems C14_boundaries, C14_read_outcomes, C14_short_read_noop, C14_all_accepted, C14_exactly_once, C14_closing, C14_oversize_refused/fitting_one_frame/never_splits, C14_isolation and C14_session_accepts are proved in Coq for every operation sequence, every datagram content and size, every read-buffer size and every interleaving of frame arrivals across streams (induction with an explicit representation invariant; no bound). The model (coq/Model/Datagram.v) is hand-written; on every run thousands of seeded op sequences are executed on the real datagramBufferedPipe and ~100 scenarios (all four encryption methods, 1-4 connections, arbitrary cross-connection delivery order) on a real unordered Session pair, every return value is compared with the extracted model, and an independent oracle checks per-stream exactly-once/whole/unmixed delivery, refusal of oversize writes and non-consuming short reads.',
-    level_note='Trusted: Coq kernel; extraction (ExtrOcamlBasic); blocking/wake-up (sync.Cond), deadlines and the 2^31-1 buffer limit are not modelled beyond a would-block outcome; obfuscation and the switchboard are exercised but not modelled (the connection choice is read off the harness network). Not covered: UDP relays around the Stream interface (design finding F15, not replayed).',
+    level_note='Trusted: Coq kernel; extraction (ExtrOcamlBasic); blocking/wake-up (sync.Cond), deadlines and the 2^31-1 buffer limit are not modelled beyond a would-block outcome; obfuscation and the switchboard are exercised but not modelled (the connection choice is read off the harness network). Relay level: client.RouteUDP is replayed on loopback UDP; its 8192-byte buffer violates the property for datagrams of 8193..16132 bytes (C14_relay_refuted, known finding F15); the server-side UDP relay is not driven.',
     design_ref='DESIGN.md section 6, C14')
